@@ -48,9 +48,13 @@ func lookupIntrinsic(fn *ssa.Function, name string) intrinsic {
 	if fn.Pkg != nil {
 		switch fn.Pkg.Pkg.Path() {
 		case "github.com/davecgh/go-spew/spew", "net/netip", "internal/godebug", "unique", "context", "internal/poll", "os", "internal/singleflight", "internal/nettrace":
-			// inert packages: only reached from package initialisers or diagnostics; every
-			// function returns the zero value of its results
+			// inert packages: every function returns the zero value of its results, but only while a
+			// package initialiser runs (or for spew diagnostics); anywhere else it is unsupported
+			path := fn.Pkg.Pkg.Path()
 			return func(m *Machine, fr *frame, fn *ssa.Function, args []value) (value, bool) {
+				if m.initDepth == 0 && path != "github.com/davecgh/go-spew/spew" {
+					m.unsupported("call into un-modelled package: %s", fn.String())
+				}
 				return zeroResults(fn), true
 			}
 		}
@@ -820,6 +824,22 @@ func init() {
 		return nilErr(), true
 	})
 	reg("(*net.conn).Close", intrinsicsByName["(*net.UDPConn).Close"])
+	reg("net.ParseCIDR", func(m *Machine, fr *frame, fn *ssa.Function, args []value) (value, bool) {
+		s, ok := args[0].(string)
+		if !ok {
+			return nil, false // symbolic: needs a Go-source model (spec "models")
+		}
+		ip, ipn, err := net.ParseCIDR(s)
+		if err != nil {
+			return tuple{[]value(nil), (*value)(nil), m.mkError(err.Error())}, true
+		}
+		cell := new(value)
+		*cell = structure{bytesValue(ipn.IP), bytesValue(ipn.Mask)}
+		return tuple{bytesValue(ip), cell, nilErr()}, true
+	})
+	for _, n := range []string{"log.Printf", "log.Println", "log.Print"} {
+		reg(n, func(m *Machine, fr *frame, fn *ssa.Function, args []value) (value, bool) { return nil, true })
+	}
 	reg("net.ParseIP", func(m *Machine, fr *frame, fn *ssa.Function, args []value) (value, bool) {
 		s, ok := args[0].(string)
 		if !ok {
@@ -923,4 +943,18 @@ func init() {
 		rt := pkg.Type("rtype").Object().Type()
 		return iface{t: rt, v: structure{(*value)(nil)}}, true
 	})
+}
+
+func init() {
+	le := func(m *Machine, fr *frame, fn *ssa.Function, args []value) (value, bool) {
+		pkg := m.P.Prog.ImportedPackage("encoding/binary")
+		t := pkg.Type("littleEndian").Object().Type()
+		return iface{t: t, v: structure{}}, true
+	}
+	// amd64 byte order (assumption recorded in the evidence)
+	reg("github.com/khirono/go-nl.NativeEndian", le)
+	reg("github.com/khirono/go-genl.NativeEndian", le)
+	reg("github.com/free5gc/go-gtp5gnl.NativeEndian", le)
+	reg("github.com/khirono/go-rtnllink.NativeEndian", le)
+	reg("github.com/khirono/go-rtnlroute.NativeEndian", le)
 }
